@@ -592,3 +592,29 @@ Fixpoint sa_at (aw : nat) (p : tprog) (m0 : list N) (n : nat) : list N :=
   | O => m0
   | S k => match nth_error p k with Some i => sa_step aw i (sa_at aw p m0 k) | None => [] end
   end.
+
+(* ------------------------------------------------------------------ a register no instruction defines (the frame pointer) *)
+(* In a function that keeps a frame pointer the dumper names stack arguments by their offset from zbp. That is justified only
+   if zbp is constant in the body: [reg_untouched] (checked by ml/c05_driver.ml on the dumped program) says that no
+   instruction of the allocated program has the register among its defs (an instruction's defs include what it clobbers). *)
+Definition loc_is_reg (g i : N) (l : loc) : bool :=
+  match l with LReg g' i' => N.eqb g g' && N.eqb i i' | LSlot _ => false end.
+Definition defines_reg (g i : N) (ins : tinstr) : bool :=
+  match ins with
+  | TOp _ _ ds => existsb (fun a => loc_is_reg g i (fst a)) ds
+  | TMove d _ _ _ _ => loc_is_reg g i d
+  | TSwap a b _ => loc_is_reg g i a || loc_is_reg g i b
+  | _ => false
+  end.
+Definition reg_untouched (g i : N) (tp : tprog) : bool := negb (existsb (defines_reg g i) tp).
+
+(* the same register tracking for an address that becomes known at instruction number s (by-reference call arguments:
+   "lea p, [sp+k]" makes p the address of the temporary k): m0 = the registers holding it right behind instruction s; the set
+   is empty up to s, m0 at s+1, then followed by sa_step. A store "[p] := x" is read as "slot k := x" only while p is in
+   the set (ml/c05_driver.ml). *)
+Fixpoint sa_from (aw : nat) (p : tprog) (s : nat) (m0 : list N) (n : nat) : list N :=
+  match n with
+  | O => []
+  | S k => if Nat.eqb k s then m0
+           else match nth_error p k with Some i => sa_step aw i (sa_from aw p s m0 k) | None => [] end
+  end.
